@@ -2,6 +2,8 @@
 
 package data_model
 
+import "fmt"
+
 // VerifC21Reader is a slice-backed ChunkedStorage2 made by the real constructor NewChunkedStorage2Slice and
 // re-targeted at successive file images by the C21 harnesses (internal/data_model and internal/pcache). A fresh
 // object costs a 1 MB scratch allocation, which dominated the cost of enumerating hundreds of thousands of
@@ -34,3 +36,46 @@ func (r *VerifC21Reader) Open(img []byte) *ChunkedStorage2 {
 
 // Bytes is the current content of the file buffer (valid until the next Open).
 func (r *VerifC21Reader) Bytes() []byte { return r.fp }
+
+// VerifC21Snap is a value copy of EVERY field of a storage object (the whole struct is copied, not a list of named
+// fields, so private state added later is carried as well) except the scratch buffer and the three closures, which
+// belong to the recycled object. Resume puts it back: together they let an explicit-state search keep "one storage
+// object lives through the whole history" (size of the file at open time, position, hash chain, write error,
+// reading-finished flag) although each step runs on a pooled object.
+type VerifC21Snap struct {
+	ok      bool
+	reading bool // ReadAt != nil: reading has not finished
+	st      ChunkedStorage2
+}
+
+func (r *VerifC21Reader) Snapshot() VerifC21Snap {
+	s := VerifC21Snap{ok: true, reading: r.st.ReadAt != nil, st: *r.st}
+	s.st.scratch, s.st.ReadAt, s.st.WriteAt, s.st.Truncate = nil, nil, nil, nil
+	return s
+}
+
+// Resume: the file buffer holds file, the object is in the snapshot's state (an invalid snapshot = Open).
+func (r *VerifC21Reader) Resume(file []byte, s VerifC21Snap) *ChunkedStorage2 {
+	if !s.ok {
+		return r.Open(file)
+	}
+	r.fp = append(r.fp[:0], file...)
+	scratch := r.st.scratch
+	*r.st = s.st
+	r.st.scratch, r.st.WriteAt, r.st.Truncate = scratch, r.writeAt, r.truncate
+	if s.reading {
+		r.st.ReadAt = r.readAt
+	}
+	return r.st
+}
+
+func (s VerifC21Snap) Valid() bool { return s.ok }
+
+// Key: the part of the carried storage state that is not a function of the current file bytes and that the writer
+// side can consult (reader-side leftovers nextOffset/nextHash are carried but do not split states).
+func (s VerifC21Snap) Key() string {
+	if !s.ok {
+		return "-"
+	}
+	return fmt.Sprintf("open@%d,werr=%v,reading=%v", s.st.initialFileSize, s.st.writeErr != nil, s.reading)
+}
